@@ -11,6 +11,11 @@ CHECKS = {
         text="Small-scope exhaustive exploration: the full product of the stated alphabets up to the stated sequence length is compiled and executed; try_from is compared with the cast-derived reference on every integer of the domain. The reference is rustc's own discriminant assignment (twin enum), not a model of mine.",
         note="Trusted: rustc's `as` cast on the unit-only twin enum; the masking-fixpoint attribution of diagnostics (canaries planted in every run). Bounds: sequences up to length 2 (quick) / 3 (thorough); value domain exhaustive only for 8/16-bit reprs.",
         design_ref="DESIGN.md §3 C12", engine="compile"),
+    "C10": dict(
+        technique="bounded exhaustive enumeration of struct/enum shapes x all 24 operator derives x forward modes, executed on a free-term-algebra operand type; every ordered pair of variant values for enums; result terms compared with the field-wise law",
+        text="Small-scope exhaustive exploration of type shapes with an uninterpreted (term-building) operand type: the result of every derived operator call is compared structurally with op(lhs.i, rhs.i) for every field, so operand swaps, field swaps, wrong methods and wrong error kinds are all visible. Parametricity lifts the single valuation to all operand values.",
+        note="Trusted: parametricity of expansions in operand values (they only call trait methods); rustc. Bounds: 1..3 fields (4 thorough), enums of <=2 (3 thorough) variants over {unit,tuple1,tuple2,named2(,named1,tuple3)}.",
+        design_ref="DESIGN.md §3 C10", engine="compile"),
 }
 
 PENDING = ["C01", "C02", "C03", "C04", "C05", "C06", "C07", "C08", "C09", "C10", "C11", "C13", "C14", "C15", "C16",
